@@ -115,6 +115,19 @@ class DecodeExec:
             return Read(fmt, self.tick())
         return None
 
+    def fmt_of_decode(self, node):
+        """'64B' or '{}B'.format(N) -> (format char, count)"""
+        if isinstance(node, ast.Constant) and isinstance(node.value, str) and node.value[:-1].isdigit() and node.value[-1] in FMT_WIDTH:
+            return node.value[-1], int(node.value[:-1])
+        if (isinstance(node, ast.Call) and isinstance(node.func, ast.Attribute) and node.func.attr == "format"
+                and isinstance(node.func.value, ast.Constant) and isinstance(node.func.value.value, str)):
+            tmpl = node.func.value.value
+            if tmpl.startswith("{}") and len(tmpl) == 3 and len(node.args) == 1:
+                return tmpl[2], self.const(node.args[0])
+        if isinstance(node, ast.JoinedStr) and len(node.values) == 2 and isinstance(node.values[0], ast.FormattedValue) and isinstance(node.values[1], ast.Constant):
+            return node.values[1].value, self.const(node.values[0].value)
+        raise TranslatorGap(f"unsupported unpack format {ast.unparse(node)[:60]}")
+
     @staticmethod
     def is_struct(func, name):
         return (
@@ -176,6 +189,22 @@ class DecodeExec:
             if elt is None:
                 raise TranslatorGap("comprehension element is not a stream read")
             return ReadList(elt.fmt, n, elt.order)
+        # counted read: list(struct.unpack("{}B".format(N), s.read(N * width))) (also without list(...))
+        inner = node
+        if isinstance(node, ast.Call) and isinstance(node.func, ast.Name) and node.func.id in ("list", "tuple") and len(node.args) == 1:
+            inner = node.args[0]
+        if isinstance(inner, ast.Call) and self.is_struct(inner.func, "unpack") and len(inner.args) == 2:
+            try:
+                fmt, count = self.fmt_of_decode(inner.args[0])
+            except TranslatorGap:
+                fmt, count = None, None
+            rd = inner.args[1]
+            if (fmt in FMT_WIDTH and isinstance(count, int) and isinstance(rd, ast.Call) and isinstance(rd.func, ast.Attribute) and rd.func.attr == "read"
+                    and isinstance(rd.func.value, ast.Name) and isinstance(env.get(rd.func.value.id), Stream)):
+                n = self.const(rd.args[0])
+                if n != count * FMT_WIDTH[fmt]:
+                    raise TranslatorGap(f"read({n}) does not match format {count}{fmt!r}")
+                return ReadList(fmt, count, self.tick())
         if isinstance(node, ast.Call):
             f = node.func
             # BytesIO(x)
